@@ -130,7 +130,7 @@ theorem coef_cuts (i : In K) :
     ∧ k.xi20 = xi i.vp2 i.vp0 i.e2 i.e0 (dv i 0) ∧ k.xi21 = xi i.vp2 i.vp1 i.e2 i.e1 (dv i 1) := by
   simp only [cuts, Gen3TL.N3_L_material_cuts, gen_simp, sv, dv, eta3, xi]
   repeat' apply And.intro
-  all_goals ring
+  all_goals (first | trivial | ring)
 
 theorem so_cuts (hc : c * c = 2) (i : In K)
     (hl : ∀ a b : Fin 3, a ≠ b → lam i a ≠ lam i b) (a b : Fin 6) :
